@@ -1,4 +1,4 @@
-(* C14 — translator obligations, second batch: the 59 kernels regenerated from /repo's cmp_greater.hpp, cmp_less_equal.hpp,
+(* C14 — translator obligations, second batch: the 64 kernels regenerated from /repo's cmp_greater.hpp, cmp_less_equal.hpp,
    cmp_greater_equal.hpp, cmp_not_equal.hpp, in_range.hpp (with the cmp_less / cmp_equal instantiations they call),
    saturate_cast.hpp, byteswap.hpp (detail::byteswap_fallback), experimental/net/byte_order.hpp, add_sat.hpp
    (detail::add_sat_fallback, 64-bit branch), abs.hpp (int, long) and the template<Pos> wrappers of set_bit.hpp, reset_bit.hpp,
